@@ -164,8 +164,10 @@ func FormulaOfExpr(e ast.Expr, eq EqualityCalls) (Formula, error) {
 }
 
 // FormulaOfStmts converts a statement list of the shapes
-//   return E
-//   if C { <stmts> } [else { <stmts> }] ; <stmts>
+//
+//	return E
+//	if C { <stmts> } [else { <stmts> }] ; <stmts>
+//
 // into the formula of its first returned value.
 func FormulaOfStmts(stmts []ast.Stmt, eq EqualityCalls) (Formula, error) {
 	if len(stmts) == 0 {
